@@ -35,8 +35,9 @@ def _replay_chunk(args):
     return calls, out
 
 
-def replay_all(cases, signature, rep, procs=16):
+def replay_all(cases, signature, rep, procs=None):
     """Replay all histories in parallel; report violations via rep.  Returns number of API calls."""
+    procs = procs or int(__import__('os').environ.get('VERIF_PROCS', '16'))
     n = max(1, min(procs, len(cases) // 50 + 1))
     chunks = [cases[i::n] for i in range(n)]
     calls = 0
